@@ -5,7 +5,9 @@
 (*    not a valid model, structures without covariance in R^d listed for R^d, unknown structures;        *)
 (*  - equation and geometry records: digits of agreement reached vs required;                            *)
 (*  - positive semi-definiteness records: exact symmetry and the class of the smallest eigenvalue vs     *)
-(*    the obligation recomputed here from (structure, shape parameter, dimension).                       *)
+(*    the obligation recomputed here from (structure, shape parameter, dimension);                       *)
+(*  - admission records: a request of shape parameter is refused, or the object reports a parameter of   *)
+(*    the admitted domain and is a valid model for it.                                                   *)
 (* Every record is judged independently; rejections are printed as JSON lines.                           *)
 EXTENDS CovStructures, Json, IOUtils, TLCExt
 
@@ -15,6 +17,7 @@ VARIABLE i
 Bad(v) == CASE v.k = "offer"           -> OfferBad(v)
             [] v.k \in {"psd", "mix"}  -> PsdBad(v)
             [] v.k \in {"eq", "geo"}   -> NumBad(v)
+            [] v.k = "admit"           -> AdmitBad(v)
             [] OTHER                   -> {"unknown-kind"}
 
 Init == i = 0
